@@ -66,7 +66,9 @@ PROPS = {
         "level": "exploration",
         "needs_plain_binary": True,
         "stages": [hist("hist", "hist::hist_c10", 600, 12000),
-                   {"name": "realfs", "kind": "python", "module": "clean_real", "cases": {"quick": 48, "thorough": 500}}],
+                   {"name": "realfs", "kind": "python", "module": "clean_real", "cases": {"quick": 48, "thorough": 500}},
+                   {"name": "memcheck", "kind": "python", "module": "clean_real", "cases": {"quick": 0, "thorough": 16}, "tiers": ["thorough"],
+                    "wrapper": ["valgrind", "-q", "--error-exitcode=99"]}],
         "rule": "case = one clean followed by a build of the same scope after the scope had just been verified up to date by a successful build, on the in-memory System inside random histories and (stage realfs) with the built ruler binary, shell commands and the real file system (listing, bytes, permission bits, status lines); distinct by (graph shape, history prefix) resp. (seed, case, round); non-trivial when at least two targets were cleaned",
         "floor": {"quick": 100, "thorough": 1000},
         "assumptions": COMMON_ASSUME,
